@@ -117,7 +117,7 @@ func genTokSpec(r *Rand, nCast int, label string, rich bool) TokSpec {
 // every label (Ed25519 principals only): used where the order in which a
 // container writer emits its entries must not influence byte counts.
 func uniformDlgSpec(i int) TokSpec {
-	return TokSpec{Kind: "dlg", Dlg: &DlgSpec{Label: fmt.Sprintf("u%02d", i%100), Iss: i, Aud: i + 1, Sub: i, Cmd: "/a/b", NonceLen: 12}}
+	return TokSpec{Kind: "dlg", Dlg: &DlgSpec{Label: fmt.Sprintf("u%02d", i%100), Iss: i % 8, Aud: (i + 1) % 8, Sub: i % 8, Cmd: "/a/b", NonceLen: 12}}
 }
 
 // buildTok constructs the real token for a spec (missing proof labels become
